@@ -1743,14 +1743,24 @@ func c15U1(c *rt.Ctx) {
 	for _, sink := range sinks {
 		// duty = core.Duty{Slot: slot.Slot, Type: <element of core.AllDutyTypes()>}, built in this iteration
 		lit := c15DutyCell(e, sink)
-		if lit == nil || lit.Parent() != sched {
+		// the duty is built in scheduleSlot or in a single-use helper on the way from it to the trigger (the
+		// body of the duty-type loop extracted into a method): litSite is the start of the next link there
+		var litSite ssa.Instruction
+		if lit != nil {
+			for _, cs := range chain {
+				if cs.Parent() == lit.Parent() {
+					litSite = cs
+				}
+			}
+		}
+		if lit == nil || litSite == nil {
 			c.Unsure("scheduleSlot trigger duty", sink.Pos(), "the duty handed to subscribers cannot be traced to a duty value built in scheduleSlot")
 			continue
 		}
 		fields := map[string]ssa.Value{}
 		shape := true
 		for k, sts := range c15StructInit(lit) {
-			if len(sts) != 1 || !an.Dominates(sts[0], st) {
+			if len(sts) != 1 || !an.Dominates(sts[0], litSite) {
 				shape = false
 				continue
 			}
@@ -1777,7 +1787,12 @@ func c15U1(c *rt.Ctx) {
 		}
 		tv := fields["core.Duty.Type"]
 		if perType || !loopUnknown {
-			c.Check("scheduleSlot trigger duty type", st.Pos(), perType && tv != nil && l.Body[lit.Block()] && c15ElemOf(l, tv),
+			// a duty built in a helper is a fresh variable per call; the helper's call chain starts in the loop (st)
+			inIter := lit.Parent() != sched || (l != nil && l.Body[lit.Block()])
+			if tv != nil && lit.Parent() != sched {
+				tv = e.origin(tv) // the helper's duty-type parameter: the argument handed in by scheduleSlot
+			}
+			c.Check("scheduleSlot trigger duty type", st.Pos(), perType && tv != nil && inIter && c15ElemOf(l, tv),
 				"the type of the triggered duty is not the loop's duty type: several iterations trigger the same duty")
 		}
 		sv := fields["core.Duty.Slot"]
@@ -2469,6 +2484,39 @@ func c15U2(c *rt.Ctx) {
 	c15OffsetArithmetic(c, e, glob)
 }
 
+// c15MissEdge: the control-flow edge pred -> blk is taken only when one of the lookup flags in miss is false:
+// it is the false edge of a branch on such a flag, or pred lies below such a false edge.
+func c15MissEdge(pred, blk *ssa.BasicBlock, miss []ssa.Value) bool {
+	falseEdge := func(from, to *ssa.BasicBlock) bool {
+		if len(from.Instrs) == 0 {
+			return false
+		}
+		iff, ok := from.Instrs[len(from.Instrs)-1].(*ssa.If)
+		if !ok || from.Succs[0] == from.Succs[1] {
+			return false
+		}
+		cond, want := iff.Cond, 1 // successor taken when the flag is false
+		if not, isNot := cond.(*ssa.UnOp); isNot && not.Op == token.NOT {
+			cond, want = not.X, 0
+		}
+		for _, m := range miss {
+			if cond == m && from.Succs[want] == to {
+				return true
+			}
+		}
+		return false
+	}
+	if falseEdge(pred, blk) {
+		return true
+	}
+	for d := pred; d != nil; d = d.Idom() {
+		if len(d.Preds) == 1 && falseEdge(d.Preds[0], d) {
+			return true
+		}
+	}
+	return false
+}
+
 // c15Deadline checks that fn returns true only when there is no offset for the duty type or after the
 // channel armed with slot.Time.Add(slotOffsets[type](slot.SlotDuration)) fired. byDuty: the table is
 // indexed by the type of fn's duty parameter (else by the attester constant). Pure single-use helpers
@@ -2498,17 +2546,128 @@ func c15Deadline(c *rt.Ctx, e *c15Env, fn *ssa.Function, byDuty bool) {
 		if byDuty {
 			return e.fieldOf(lk.Index, "Type", dutyP)
 		}
-		n, isN := an.ConstInt(lk.Index)
+		n, isN := an.ConstInt(e.origin(lk.Index))
 		return isN && n == att
 	}
 	var isOffset func(v ssa.Value, d int) bool
+	// offsetHelperOK: call runs a helper of the package that computes the offset (`slotOffset(duty.Type,
+	// slot.SlotDuration)`, possibly shared by both wait functions): looked at with the arguments of this
+	// call, every return of the helper yields (offset[, true]) or (_, false on a lookup miss).
+	offHelper := map[*ssa.Call]int{} // 1 good, 2 bad / in progress
+	offsetHelperOK := func(call *ssa.Call) bool {
+		if st := offHelper[call]; st != 0 {
+			return st == 1
+		}
+		offHelper[call] = 2
+		callee := call.Call.StaticCallee()
+		if callee == nil || call.Call.IsInvoke() {
+			return false
+		}
+		h := an.Orig(callee)
+		if h.Pkg != e.pkg || h == fn || len(h.Blocks) == 0 {
+			return false
+		}
+		res := h.Signature.Results()
+		if res.Len() < 1 || res.Len() > 2 || an.TypeName(res.At(0).Type()) != "time.Duration" {
+			return false
+		}
+		if res.Len() == 2 {
+			if b, isB := res.At(1).Type().Underlying().(*types.Basic); !isB || b.Kind() != types.Bool {
+				return false
+			}
+		}
+		if e.ctx == nil {
+			e.ctx = map[*ssa.Function]ssa.CallInstruction{}
+		}
+		prev, had := e.ctx[h]
+		e.ctx[h] = call
+		defer func() {
+			if had {
+				e.ctx[h] = prev
+			} else {
+				delete(e.ctx, h)
+			}
+		}()
+		var miss []ssa.Value
+		for _, in := range an.Instrs(h, false) {
+			if lk, ok := in.(*ssa.Lookup); ok && lk.CommaOk && isOffsetFn(lk) {
+				for _, ref := range *lk.Referrers() {
+					if ex, ok := ref.(*ssa.Extract); ok && ex.Index == 1 {
+						miss = append(miss, ex)
+					}
+				}
+			}
+		}
+		rets := an.Returns(h)
+		if len(rets) == 0 {
+			return false
+		}
+		for _, r := range rets {
+			rv := returnValues(r)
+			if res.Len() == 2 {
+				k, isConst := c15ConstBool(rv[1])
+				if !isConst {
+					// `return offset, ok` of the lookup itself
+					isMiss := false
+					for _, m := range miss {
+						if rv[1] == m {
+							isMiss = true
+						}
+					}
+					if !isMiss {
+						return false
+					}
+					// single-exit form `if ok { offset = fn(d) }; return offset, ok`: the value merged in over an
+					// edge taken only on a lookup miss is never used by the caller (the flag is false there)
+					if phi, isPhi := rv[0].(*ssa.Phi); isPhi {
+						for i, ed := range phi.Edges {
+							if !c15MissEdge(phi.Block().Preds[i], phi.Block(), miss) && !isOffset(ed, 2) {
+								return false
+							}
+						}
+						continue
+					}
+					if !isOffset(rv[0], 1) {
+						return false
+					}
+					continue
+				}
+				if !k {
+					all, decided := c15Arrivals(h, r, miss, nil, func(f *an.H15Facts) bool {
+						for _, m := range miss {
+							if kk, known := f.Known(m); known && !kk {
+								return true
+							}
+						}
+						return false
+					})
+					if !all || !decided {
+						return false
+					}
+					continue
+				}
+			}
+			if !isOffset(rv[0], 1) {
+				return false
+			}
+		}
+		offHelper[call] = 1
+		return true
+	}
 	isOffset = func(v ssa.Value, d int) bool {
 		if d > 4 {
 			return false
 		}
 		switch x := e.origin(v).(type) {
+		case *ssa.Extract:
+			if call, ok := x.Tuple.(*ssa.Call); ok && x.Index == 0 {
+				return offsetHelperOK(call)
+			}
 		case *ssa.Call:
-			return x.Call.StaticCallee() == nil && !x.Call.IsInvoke() && isOffsetFn(x.Call.Value) && len(x.Call.Args) == 1 && e.fieldOf(x.Call.Args[0], "SlotDuration", slotP)
+			if x.Call.StaticCallee() != nil {
+				return offsetHelperOK(x)
+			}
+			return !x.Call.IsInvoke() && isOffsetFn(x.Call.Value) && len(x.Call.Args) == 1 && e.fieldOf(x.Call.Args[0], "SlotDuration", slotP)
 		case *ssa.BinOp:
 			if x.Op == token.ADD {
 				if n, ok := an.ConstInt(x.Y); ok && n >= 0 {
@@ -2633,10 +2792,18 @@ func c15Deadline(c *rt.Ctx, e *c15Env, fn *ssa.Function, byDuty bool) {
 		if !ok || call.Call.StaticCallee() == nil || call.Call.Signature().Results().Len() != 2 {
 			continue
 		}
-		if h := an.Orig(call.Call.StaticCallee()); h.Pkg != e.pkg || an.TypeName(call.Call.Signature().Results().At(0).Type()) != "time.Time" {
+		h := an.Orig(call.Call.StaticCallee())
+		if h.Pkg != e.pkg {
 			continue
 		}
-		if helperOK(call) {
+		good := false
+		switch an.TypeName(call.Call.Signature().Results().At(0).Type()) {
+		case "time.Time":
+			good = helperOK(call)
+		case "time.Duration":
+			good = offsetHelperOK(call)
+		}
+		if good {
 			for _, ref := range *call.Referrers() {
 				if ex, ok := ref.(*ssa.Extract); ok && ex.Index == 1 {
 					noOffset = append(noOffset, ex)
